@@ -1,6 +1,7 @@
 """C09 - adaptive quadrature results are within tolerance of the true integral.
 E1: SimpsonStack (all accept/split verdict trees to depth 3/4: pending + accepted panels tile the interval, each frame
-    stores its own panel's estimate, level bound) and the textbook recursion as work reference.
+    stores its own panel's estimate, level bound), GaussStop (two-consecutive-agreement rule over every verdict sequence),
+    Romberg (tableau recurrence over exact rationals: exact up to degree 2n-1), and the textbook recursion as work reference.
 E3: seeded runs of the eight routines with a recording integrand; TLC (Val_C09, module Quad) compares with closed-form
     (weighted) integrals, checks error cases, abscissae inside the interval, Romberg exactness on polynomials of degree
     <= 2n-1, and adaptive Simpson's work against the textbook recursion run by TLC on the same input."""
@@ -29,6 +30,15 @@ def integrand(rng, routine, cx, span, xmax=1.0):
         return {"k": "poly", "c": [c11.cz(rng.uniform(-2, 2) * scale(k), (rng.uniform(-2, 2) * scale(k)) if cx else 0.0) for k in range(deg + 1)], "p": []}
     if routine == "simpson" and r < 0.5:
         return poly(rng.randint(0, 5), lambda k: max(1.0, xmax) ** (-k)), True
+    if cx and routine in ("tanhsinh", "legendre") and r < 0.75:
+        # real part easy, imaginary part hard: a stopping rule that looks at one component only stops too early
+        easy = {"k": "poly", "c": [c11.cz(rng.uniform(-2, 2)), c11.cz(rng.uniform(-1, 1) / max(1.0, xmax))], "p": []}
+        # up to ~4 periods over the interval for tanh-sinh (385 nodes); twelve Gauss-Legendre rules resolve about one
+        lim = 25.0 if routine == "tanhsinh" else 8.0
+        w = min(rng.uniform(2.0, lim / max(span, 0.05)), lim)
+        hard = {"k": "sin", "c": [c11.cz(0.0)], "p": [fp(rng.uniform(1, 3)), fp(w), fp(rng.uniform(0, 6.28))]}
+        parts = (easy, hard) if rng.random() < 0.7 else (hard, easy)
+        return {"k": "mix", "c": [c11.cz(0.0)], "p": [], "re": parts[0], "im": parts[1]}, True
     if r < 0.35:
         if routine == "laguerre":
             return poly(rng.randint(0, 10), lambda k: 1.0 / math.factorial(k)), True
@@ -71,6 +81,12 @@ def gen(ctx, rng, n):
         span = b - a
         tol = 10.0 ** (-rng.uniform(3, 11))
         nrom = rng.randint(1, 7)
+        if routine == "simpson" and rng.random() < 0.3:
+            # many panels: long interval and tight tolerance, where the per-panel tolerance schedule matters
+            a = rng.uniform(-3, 0)
+            b = a + rng.uniform(2.5, 4.0)
+            span = b - a
+            tol = 10.0 ** (-rng.uniform(8, 11))
         if routine == "romberg":
             deg = rng.randint(0, 2 * nrom - 1)
             a, b = float(rng.randint(-3, 2)), 0.0
@@ -79,7 +95,11 @@ def gen(ctx, rng, n):
             must = True
         else:
             f, must = integrand(rng, routine, cx, span if routine in INTERVAL else 0.0, max(abs(a), abs(b)))
-        if f["k"] == "cis":
+        if routine == "simpson" and span > 2.4 and tol < 1e-7:
+            deg = rng.choice([4, 5])
+            f = {"k": "poly", "c": [c11.cz(rng.uniform(-2, 2) * max(1.0, abs(a), abs(b)) ** (-k), 0.0) for k in range(deg + 1)], "p": []}
+            cx = False
+        if f["k"] in ("cis", "mix"):
             cx = True
         mode = rng.random()
         if routine in INTERVAL and mode < 0.06:
@@ -123,6 +143,8 @@ def run(ctx):
     finally:
         os.remove(cfgp)
     ctx.add_tlc(r, e1=True)
+    ctx.add_tlc(vlib.tlc("GaussStop", cfg="GaussStop.cfg", workers=2, timeout=600, deque=False), e1=True)
+    ctx.add_tlc(vlib.tlc("Romberg", cfg="Gen.cfg", timeout=600), e1=True)
     judge(ctx, gen(ctx, rng, 1600 if ctx.tier == "quick" else 16000))
     ctx.rule = ("8 routines x seeded integrands (polynomials, a e^{cx}, a sin(wx+p), a e^{i(wx+p)}) with closed-form integrals, intervals of "
                 "length 0.05..4 in [-5,5], tol 1e-11..1e-3, real and complex; reversed / empty intervals and negative tolerances; Romberg on "
